@@ -64,6 +64,10 @@ def _mix_task(task, out):
     only = task.get("only")
     for asg in asgs:
         names = [MIX[c] for c in asg]
+        if task.get("g"):
+            # large mixtures: rows reaching the dtype maximum overflow on dequantization (known finding F-C16-1) and would hide
+            # everything else in the tensor; they are covered by the small mixtures
+            names = [nm if not nm.startswith("near_max") else "offset9" for nm in names]
         for axis in (0, -1):
             for gs in ((None, task.get("gs", 2)) if affine else (None,)):
                 if only and only != [list(asg), axis, gs]:
